@@ -467,6 +467,64 @@ func vfExerciseExpected(rep *verifkit.Report, tc *conformancev1.TestCase, desc s
 	combined.Feedback = []string{"fb"}
 	c.mustPass("all-combined", combined)
 
+	// ---- a deviation stays a deviation when a leniency applies at the same time: the cheap deviations are
+	// repeated on top of the combined rewrite and (for unary / client-stream errors) on top of the merged-metadata forms
+	bases := map[string]*vfRes{"combined-leniencies": combined}
+	if mergeable && (len(E.ResponseHeaders) > 0 || len(E.ResponseTrailers) > 0) && !vfHasDupNames(E.ResponseHeaders) && !vfHasDupNames(E.ResponseTrailers) {
+		merged := map[string][]string{}
+		var order []string
+		for _, h := range append(vfCloneHeaders(E.ResponseHeaders), vfCloneHeaders(E.ResponseTrailers)...) {
+			k := strings.ToLower(h.Name)
+			if _, ok := merged[k]; !ok {
+				order = append(order, k)
+			}
+			merged[k] = append(merged[k], h.Value...)
+		}
+		var all []*conformancev1.Header
+		for _, k := range order {
+			all = append(all, &conformancev1.Header{Name: k, Value: merged[k]})
+		}
+		mt, mh := vfCloneRes(E), vfCloneRes(E)
+		mt.ResponseHeaders, mt.ResponseTrailers = nil, all
+		mh.ResponseHeaders, mh.ResponseTrailers = vfCloneHeaders(all), nil
+		bases["metadata-merged-into-trailers"], bases["metadata-merged-into-headers"] = mt, mh
+	}
+	for bname, base := range bases {
+		if E.HttpStatusCode != nil && bname != "combined-leniencies" {
+			a := vfCloneRes(base)
+			a.HttpStatusCode = proto.Int32(*E.HttpStatusCode + 1)
+			c.mustFail("http-status-differs+"+bname, a, "status")
+		}
+		if E.Error != nil {
+			allowed := map[conformancev1.Code]bool{E.Error.Code: true}
+			for _, oc := range tc.OtherAllowedErrorCodes {
+				allowed[oc] = true
+			}
+			for code := conformancev1.Code(1); code <= 16; code++ {
+				if !allowed[code] {
+					a := vfCloneRes(base)
+					a.Error = proto.Clone(base.Error).(*conformancev1.Error)
+					a.Error.Code = code
+					c.mustFail("code-outside-allowed-set+"+bname, a, "code")
+					break
+				}
+			}
+			if E.Error.Message != nil {
+				a := vfCloneRes(base)
+				a.Error = proto.Clone(base.Error).(*conformancev1.Error)
+				a.Error.Message = proto.String(E.Error.GetMessage() + " altered")
+				c.mustFail("message-altered+"+bname, a, "message")
+			}
+		} else {
+			a := vfCloneRes(base)
+			a.Error = &conformancev1.Error{Code: conformancev1.Code_CODE_INTERNAL}
+			c.mustFail("error-added+"+bname, a, "unexpected error")
+		}
+		a := vfCloneRes(base)
+		a.Payloads = append(a.Payloads, &conformancev1.ConformancePayload{Data: []byte("surplus")})
+		c.mustFail("payload-added+"+bname, a, "response messages")
+	}
+
 	// ---- deviations
 	if E.Error == nil {
 		a = vfCloneRes(E)
